@@ -135,6 +135,10 @@ def run_shard(spec):
             elif "if_not_contains(abc)" in kind and rnd.random() < 0.6:
                 g._numeric_prefix = False
                 q = g.action(0, 0, True) + rnd.choice(["/attr_low/", "/attr_low/", "/attr_false/"]) + g.query(0, first=False, max_len=3)
+            elif done == 1 and spec["rep"] == 0:
+                # one query per configuration whose text is longer than any key width a back-end may assume (about 2300 characters)
+                q = "lit-a/" + "/".join("cat-%s%02d" % ("x" * 150, j) for j in range(14))
+                env.count("long_queries")
             elif rnd.random() < 0.1:
                 # results of every built-in kind (each is filed by its own state type)
                 g._numeric_prefix = False
